@@ -325,6 +325,23 @@ deriving DecidableEq, Repr
 the error of a refused cross-namespace read (only that it is an error, and which one, matters) -/
 def errorfCross (_format _kind _resourceName _ns _defaultNamespace : List Char) : Option String := some "cross-namespace"
 
+/-! ## Go maps as lists of pairs, `sort.Strings`, `strings.TrimRight` -/
+
+/-- the keys a `for k := range m` visits (in the order of the view; Go's order is unspecified) -/
+def keys {κ ν : Type} (m : List (κ × ν)) : List κ := m.map (·.1)
+/-- `m[k]` (the zero value when absent) -/
+def index {κ ν : Type} [BEq κ] [Inhabited ν] (m : List (κ × ν)) (k : κ) : ν := (m.lookup k).getD default
+/-- insertion of one string into a list sorted by byte order -/
+def insStr (a : List Char) : List (List Char) → List (List Char)
+  | [] => [a]
+  | b :: t => if decide (a ≤ b) then a :: b :: t else b :: insStr a t
+/-- `sort.Strings` -/
+def sortStrings : List (List Char) → List (List Char)
+  | [] => []
+  | a :: t => insStr a (sortStrings t)
+/-- `strings.TrimRight(s, cutset)` -/
+def trimRight (s cutset : List Char) : List Char := (s.reverse.dropWhile (cutset.contains ·)).reverse
+
 /-! ## Go maps used as sets (`map[K]struct{}`), bit masks -/
 
 def setEmpty : List Int := []
